@@ -75,6 +75,20 @@ CAPTURE_XML = """<protocol>
         <length name="data" type="char"/>
         <array name="writer" type="short" length="data"/>
     </struct>
+    <struct name="Hollow">
+    </struct>
+    <struct name="Husk">
+        <comment>Nothing but a struct that writes nothing, then a dummy: one byte on the wire wherever the struct is used</comment>
+        <field name="hollow" type="Hollow"/>
+        <dummy type="char">0</dummy>
+    </struct>
+    <struct name="Crate">
+        <field name="tag" type="char"/>
+        <field name="husk" type="Husk"/>
+        <field name="tail" type="char"/>
+        <array name="husks" type="Husk" length="2"/>
+        <field name="end" type="short"/>
+    </struct>
 </protocol>
 """
 
